@@ -113,7 +113,17 @@ def check_property(pid, tier, seed):
         else:
             seen[o.name] = 0
     ts = time.time()
-    verdicts = solve.discharge(all_obls, timeout_s=timeout, all_backends=(tier == "thorough")) if all_obls else []
+    def give_up(fn_label):
+        if not harness_future.done():
+            return False
+        try:
+            h = harness_future.result()
+        except Exception:
+            return False
+        short = fn_label.split(".")[-1].split("[")[0]
+        return any(short and short in (f.get("function", "") + " " + c.get("name", "")) for c in (h or {}).get("clauses", []) for f in c.get("failures", [])
+                   if not str(f.get("signature", "")).startswith("F-"))
+    verdicts = solve.discharge(all_obls, timeout_s=timeout, all_backends=(tier == "thorough"), give_up=give_up) if all_obls else []
     cover_v = solve.discharge(all_covers, timeout_s=3) if all_covers else []
     solver_time = time.time() - ts
     undecided_fns = [(r.label, r.undecided) for r in results if r.undecided]
